@@ -60,7 +60,7 @@ def roots(fn, term, stop=None, _seen=None, depth=0):
         fields = [e for e in term[2] if isinstance(e, str) and e != "*" and not e.startswith("as:")]
         b = strip_refs(base)
         if b[0] == "arg" and fields:
-            out.add(("field", b[2] or "arg%d" % b[1], ".".join(fields)))
+            out.add(("field", "arg%d" % b[1], ".".join(fields)))       # (by position: parameter names are free)
         else:
             sub = roots(fn, base, stop, _seen, depth + 1)
             if fields:
